@@ -50,6 +50,11 @@ def run(res, replay=None):
                           'windows': [[b, 2 * b] for b in pos[:2]],
                           # evenly spaced dyadic grids: every boundary (multiple of 1/8) is a grid point of the first
                           'grids': [[step * j for j in range(1, rng.randrange(6, 14))]] + ([[b * j for j in range(1, 5)] for b in pos[:1]])})
+    if not replay:
+        # designed: a slow first epoch followed by a much faster one (N = 10 until t = 5, then N = 0.1): the horizon of the whole demography
+        # is far beyond the change point and far shorter than that of the first epoch alone
+        cases.append({'spec': {'n_items': [['a', 2]], 'model': {'kind': 'kingman'}, 'pop_sizes': {'a': {'0.0': 10.0, '5.0': 0.125}}},
+                      'ts': [6.0, 1.0, 5.0], 'extra_times': [2.5, 5.5], 'T': 60.0, 'window': [1.0, 6.0], 'windows': [[5.0, 10.0]], 'grids': [[1.25 * j for j in range(1, 7)]]})
     results = orc.run_oracle(res, 'accumulation', cases, chunk=1)
     # accumulation curves on multi-point grids against the Gallina propagation loop, incl. rewards that stall
     # before absorption (isolation then contact; per-population and per-bin rewards)
